@@ -121,7 +121,7 @@ def main(mod):
             sig = v.get("signature") or f"{v.get('sig')}"
             f = match_finding(findings, sig)
             if f:
-                known_hits.setdefault(f["match"], {"finding": f, "n": 0, "example": v})
+                known_hits.setdefault(f["match"], {"finding": f, "n": 0, "example": v, "job": r.get("job_spec") or r.get("job")})
                 known_hits[f["match"]]["n"] += 1
             else:
                 new_viol.append((r, v))
@@ -139,7 +139,8 @@ def main(mod):
     with open(os.path.join(EVIDENCE_DIR, f"{prop}.json"), "w") as f:
         json.dump(agg, f, indent=1, sort_keys=True, default=str)
     for k, h in known_hits.items():
-        print(f"KNOWN-FINDING: property={prop} {h['finding'].get('what', k)} [{h['n']} hit(s), match={k}]")
+        path = write_replay(prop, {"property": prop, "job": h.get("job"), "violation": h["example"], "known_finding": k})
+        print(f"KNOWN-FINDING: property={prop} {h['finding'].get('what', k)} [{h['n']} hit(s), match={k}, replay={path}]")
     seen_sig = set()
     for r, v in new_viol:
         sig = v.get("signature") or v.get("sig")
